@@ -114,6 +114,9 @@ type Case struct {
 	Retry    bool       `json:"retry"` // try_duration set: failed attempts are retried
 	Plans    [][]string `json:"plans"` // per request: outcome of each attempt
 	Schedule []int      `json:"schedule"`
+	// Cancel: per request, whether its client goes away while the request is parked between Select and
+	// the count (the first time it is parked there)
+	Cancel []bool `json:"cancel,omitempty"`
 }
 
 func build(c *Case) (proxy.Upstream, proxy.HostPool, error) {
@@ -167,6 +170,12 @@ func runCase(c *Case) (nontrivial bool, err error) {
 	for i := range st {
 		st[i] = rstate{state: "new", host: -1}
 	}
+	ctxs := make([]context.Context, n)
+	cancels := make([]context.CancelFunc, n)
+	for i := range ctxs {
+		ctxs[i], cancels[i] = context.WithCancel(context.Background())
+		defer cancels[i]()
+	}
 	fails := make([]int, len(pool)) // failures recorded per host so far (fail_timeout 1h: none expires)
 	status := make([]int, n)
 	start := func(id int) {
@@ -179,6 +188,7 @@ func runCase(c *Case) (nontrivial bool, err error) {
 				s.events <- event{id, label, -1}
 			}()
 			r := httptest.NewRequest("POST", "/", strings.NewReader("body"))
+			r = r.WithContext(ctxs[id])
 			r.Header.Set("X-Req", fmt.Sprint(id))
 			w := httptest.NewRecorder()
 			code, _ := p.ServeHTTP(w, r)
@@ -186,6 +196,7 @@ func runCase(c *Case) (nontrivial bool, err error) {
 		}()
 	}
 	history := []string{}
+	cancelled := make([]bool, n)
 	step := func(id int) error {
 		prev := st[id]
 		if prev.state == "new" {
@@ -218,6 +229,11 @@ func runCase(c *Case) (nontrivial bool, err error) {
 				st[id] = rstate{state: ev.label, host: ev.host}
 			}
 			history = append(history, fmt.Sprintf("r%d:%s@h%d", id, ev.label, ev.host))
+			if ev.label == "select" && id < len(c.Cancel) && c.Cancel[id] && !cancelled[id] {
+				cancelled[id] = true
+				cancels[id]() // the client has gone away; the request is still parked before the count
+				history = append(history, fmt.Sprintf("r%d:client-gone", id))
+			}
 			return nil
 		case <-time.After(10 * time.Second):
 			return fmt.Errorf("HARNESS-INCONCLUSIVE: request %d did not reach its next gate within 10s (history %v)", id, history)
@@ -355,6 +371,9 @@ func genCase(t *rapid.T) *Case {
 		c.Plans = append(c.Plans, plan)
 	}
 	c.Schedule = rapid.SliceOfN(rapid.IntRange(0, 5), 10, 60).Draw(t, "schedule")
+	for i := range c.Plans {
+		c.Cancel = append(c.Cancel, rapid.IntRange(0, 5).Draw(t, fmt.Sprintf("cancel%d", i)) == 0)
+	}
 	return c
 }
 
@@ -570,6 +589,13 @@ func replayCase(rf *vt.ReplayFile) error {
 			return err
 		}
 		_, err := runCase(&c)
+		return err
+	case "health-flap":
+		var c flapCase
+		if err := vt.Decode(rf, &c); err != nil {
+			return err
+		}
+		_, err := runFlap(&c)
 		return err
 	case "expiry-burst":
 		var c burstCase
